@@ -281,12 +281,169 @@ def run(prog, rep):
         msg = "platform_key has %d writer(s): %s" % (len(writers), sorted(set(f.name for f, n in writers)))
     rep.ob("C06.4", nw, "key", okk, msg, nw.loc[0])
     rep.floor("C06.4", 1)
+    sysv(prog, rep)
+
+
+SEM_UNDO, IPC_NOWAIT, IPC_CREAT, IPC_EXCL, IPC_RMID, SETVAL, EINTR = 0x1000, 0x800, 0o1000, 0o2000, 0, 16, 4
+
+
+def sysv(prog, rep):
+    """The System V model (psemaphore-sysv.c; not selectable in the Linux build, analysed with the flags of the POSIX unit)."""
+    rep.rule("C06.5", "System V model: acquire is semop -1 and release semop +1 on semaphore 0 of sem->sem_hdl, one operation, both blocking and with the SAME "
+                      "undo flag (an undo recorded for one direction only makes the kernel shift the counter when a process exits); every semop is re-issued "
+                      "on EINTR; the set is created exclusively first, marked owned only then, initialised exactly when owned or in CREATE mode, and removed "
+                      "only by its owner")
+    u = prog.units.get("psemaphore-sysv.c")
+    if u is None:
+        raise AnalysisBroken("psemaphore-sysv.c was not analysed")
+
+    def op_of(fn, c):
+        """(sem_num, sem_op, sem_flg) of the sembuf a semop call passes"""
+        a = strip_casts(c["args"][1])
+        if a is not None and a["k"] == "un" and a.get("op") == "&":
+            a = strip_casts(a["e"])
+        if a is None or a["k"] != "ref":
+            return None
+        items = None
+        if a.get("decl") == "global":
+            g = u.globals.get(a["name"])
+            items = ((g or {}).get("init") or {}).get("items")
+            # a global that some function writes is not a constant
+            for f in u.functions.values():
+                for (b, i, n) in f.nodes(elsewhere=True):
+                    if n["k"] == "asg" and root_var(n["l"]) == a["name"]:
+                        return None
+        if not items or len(items) < 3:
+            return None
+        vals = tuple(cv(x) for x in items[:3])
+        return None if None in vals else vals
+    ops = {}
+    for fname, want in (("p_semaphore_acquire", -1), ("p_semaphore_release", 1)):
+        fn = u.fn(fname)
+        sp = fn.param_names()[0]
+        cs = [(b, i, c) for (b, i, c) in fn.calls() if c.get("callee") == "semop"]
+        ok, msg = bool(cs), "%s never calls semop" % fname
+        for (b, i, c) in cs:
+            o = op_of(fn, c)
+            if o is None:
+                ok, msg = False, "line %d: the operation handed to semop is not a constant sembuf" % line(c)
+            elif guards.key(c["args"][0]) != "%s->sem_hdl" % sp or cv(c["args"][2]) != 1:
+                ok, msg = False, "line %d: semop is not called with one operation on %s->sem_hdl" % (line(c), sp)
+            elif o[0] != 0 or o[1] != want:
+                ok, msg = False, "line %d: %s performs semop %+d on semaphore %d, not %+d on semaphore 0" % (line(c), fname, o[1], o[0], want)
+            elif o[2] & IPC_NOWAIT:
+                ok, msg = False, "line %d: %s passes IPC_NOWAIT: it fails instead of blocking / completing" % (line(c), fname)
+            else:
+                ops.setdefault(fname, set()).add(o[2])
+            # re-issued on EINTR: the call sits in a loop whose continuation compares the system error with EINTR
+            inl = [body for (h, body) in fn.loops() if b.id in body]
+            retry = False
+            for body in inl:
+                for bid in body:
+                    cnd = fn.blocks[bid].cond
+                    if cnd is not None and any(n["k"] == "bin" and n["op"] in ("==", "!=") and (cv(n["r"]) == EINTR or cv(n["l"]) == EINTR) for n in walk(cnd)):
+                        retry = True
+            if ok and not retry:
+                ok, msg = False, "line %d: semop in %s is not re-issued when it fails with EINTR" % (line(c), fname)
+        rep.ob("C06.5", fn, "semop", ok, "%s: semop %+d on semaphore 0 of %s->sem_hdl, blocking, retried on EINTR (%d call site(s))" % (fname, want, sp, len(cs)) if ok else msg,
+               cs[0][2] if cs else fn.loc[0])
+    fa, fr = ops.get("p_semaphore_acquire"), ops.get("p_semaphore_release")
+    oku = fa is not None and fr is not None and len(fa | fr) == 1
+    rep.ob("C06.5", u.fn("p_semaphore_release"), "undo:symmetric", oku,
+           "acquire and release use the same sem_flg (%s): an exiting process is undone to exactly what it held" % ("SEM_UNDO" if fa and (next(iter(fa)) & SEM_UNDO) else "no undo") if oku else
+           "acquire uses sem_flg %s, release %s: with the undo recorded for one direction only, a process that made N balanced acquire/release pairs shifts the shared "
+           "counter by N when it exits (and its per-process undo value overflows after 32767 pairs)" % (sorted(fa or ()), sorted(fr or ())), u.fn("p_semaphore_release").loc[0])
+    # creation / initialisation / removal
+    ch = u.fn("pp_semaphore_create_handle")
+    sp = ch.param_names()[0]
+    probs = []
+    seen = {"excl": 0, "owned": 0, "setval": 0, "rmid": 0}
+
+    def on_stmt(st, b, i, stmt):
+        facts, gets, setv = st
+        for c in calls(stmt):
+            cn = c.get("callee")
+            if cn == "semget":
+                fl = guards.eval_const(c["args"][2], facts)
+                if gets == 0:
+                    seen["excl"] += 1
+                    if fl is None or (fl & (IPC_CREAT | IPC_EXCL)) != (IPC_CREAT | IPC_EXCL):
+                        probs.append("line %d: the first semget is not an exclusive create (IPC_CREAT | IPC_EXCL): the handle cannot know whether it created the set" % line(c))
+                elif fl is None or fl & IPC_CREAT:
+                    probs.append("line %d: the fallback semget may create the set" % line(c))
+                gets += 1
+            if cn == "semctl" and len(c["args"]) >= 3 and cv(c["args"][2]) == SETVAL:
+                seen["setval"] += 1
+                own = guards.lookup(facts, "%s->sem_created" % sp) == 1 or guards.lookup(facts, "%s->mode" % sp) == CREATE
+                if not own:
+                    probs.append("line %d: the counter is (re)initialised on a path where the handle neither created the set nor was opened in CREATE mode: "
+                                 "an OPEN of an existing name resets a counter others are using" % line(c))
+                v = strip_casts(c["args"][3]) if len(c["args"]) > 3 else None
+                setv = True
+        for n in walk(stmt):
+            if n["k"] == "asg":
+                l = strip_casts(n["l"])
+                if l is not None and l["k"] == "member" and l["field"] == "sem_created" and cv(n["r"]) == 1:
+                    seen["owned"] += 1
+                    hk = "%s->sem_hdl" % sp
+                    created = gets == 1 and any(fk == hk and fop == "!=" and fv == -1 for (fk, fop, fv) in facts)
+                    if not created:
+                        probs.append("line %d: sem_created is set on a path where the exclusive semget did not succeed: the handle would remove a set it does not own" % line(n))
+        if stmt["k"] == "ret" and guards.eval_const(stmt.get("e"), facts) == 1:
+            must = guards.lookup(facts, "%s->sem_created" % sp) == 1 or guards.lookup(facts, "%s->mode" % sp) == CREATE
+            if must and not setv:
+                probs.append("line %d: the handle is returned without the counter having been set to the requested initial value although it %s" % (
+                    line(stmt), "created the set" if guards.lookup(facts, "%s->sem_created" % sp) == 1 else "was opened in CREATE mode"))
+        return [(guards.transfer(facts, stmt, kill_calls=False), gets, setv)]
+
+    def on_edge(st, b, to, on):
+        f2 = guards.edge_assume(st[0], b, on)
+        return None if f2 is None else (f2,) + st[1:]
+    Flow(ch, [(guards.EMPTY, 0, False)], on_stmt, on_edge).run()
+    okc = not probs and seen["excl"] >= 1 and seen["owned"] >= 1 and seen["setval"] >= 1
+    rep.ob("C06.5", ch, "create", okc, "exclusive create first, ownership only on its success, SETVAL exactly when owned or CREATE mode" if okc else
+           (probs[0] if probs else "creation protocol not recognised (exclusive semget %d, ownership stores %d, SETVAL %d)" % (seen["excl"], seen["owned"], seen["setval"])), ch.loc[0])
+    cl = u.fn("pp_semaphore_clean_handle")
+    cp = cl.param_names()[0]
+    badr = []
+
+    def on_stmt2(st, b, i, stmt):
+        for c in calls(stmt):
+            if c.get("callee") == "semctl" and len(c["args"]) >= 3 and cv(c["args"][2]) == IPC_RMID:
+                seen["rmid"] += 1
+                if guards.lookup(st, "%s->sem_created" % cp) != 1:
+                    badr.append(line(c))
+        return [guards.transfer(st, stmt, kill_calls=False)]
+    Flow(cl, [guards.EMPTY], on_stmt2, lambda st, b, to, on: guards.edge_assume(st, b, on)).run()
+    okr = not badr and seen["rmid"] >= 1
+    rep.ob("C06.5", cl, "remove:owner", okr, "the set is removed (IPC_RMID) only with sem_created known TRUE" if okr else
+           ("line %d: the set is removed without sem_created tested TRUE: a visitor's free destroys the counter others use" % badr[0] if badr else "no IPC_RMID found"), cl.loc[0])
+    rep.floor("C06.5", 5)
 
 
 # generic robustness battery: renaming every local/parameter in these files must not change any verdict
 RENAME_LOCALS = ['src/psemaphore-posix.c']
 
 SELFTEST = [
+    dict(id="sysv-release-without-undo", file="src/psemaphore-sysv.c", expect="C06.5",
+         old="struct sembuf sem_unlock = {0, 1, SEM_UNDO};", new="struct sembuf sem_unlock = {0, 1, 0};"),
+    dict(id="sysv-both-without-undo-neutral", expect=None, edits=[
+        dict(file="src/psemaphore-sysv.c", old="struct sembuf sem_unlock = {0, 1, SEM_UNDO};", new="struct sembuf sem_unlock = {0, 1, 0};"),
+        dict(file="src/psemaphore-sysv.c", old="struct sembuf sem_lock = {0, -1, SEM_UNDO};", new="struct sembuf sem_lock = {0, -1, 0};")]),
+    dict(id="sysv-acquire-nowait", file="src/psemaphore-sysv.c", expect="C06.5",
+         old="struct sembuf sem_lock = {0, -1, SEM_UNDO};", new="struct sembuf sem_lock = {0, -1, SEM_UNDO | IPC_NOWAIT};"),
+    dict(id="sysv-release-adds-two", file="src/psemaphore-sysv.c", expect="C06.5",
+         old="struct sembuf sem_unlock = {0, 1, SEM_UNDO};", new="struct sembuf sem_unlock = {0, 2, SEM_UNDO};"),
+    dict(id="sysv-acquire-no-eintr-retry", file="src/psemaphore-sysv.c", expect="C06.5", count=1,
+         old="\twhile ((res = semop (sem->sem_hdl, &sem_lock, 1)) == -1 &&\n\t\tp_error_get_last_system () == EINTR)\n\t\t;\n\n\tret = (res == 0);\n\n\tif (P_UNLIKELY (ret == FALSE &&",
+         new="\tres = semop (sem->sem_hdl, &sem_lock, 1);\n\n\tret = (res == 0);\n\n\tif (P_UNLIKELY (ret == FALSE &&"),
+    dict(id="sysv-setval-on-every-open", file="src/psemaphore-sysv.c", expect="C06.5",
+         old="\tif (sem->sem_created == TRUE || sem->mode == P_SEM_ACCESS_CREATE) {\n\t\tsemun_op.val", new="\tif (TRUE) {\n\t\tsemun_op.val"),
+    dict(id="sysv-owned-after-fallback-open", file="src/psemaphore-sysv.c", expect="C06.5",
+         old="\t\tif (p_error_get_last_system () == EEXIST)\n\t\t\tsem->sem_hdl = semget (sem->unix_key, 1, 0660);\n\t} else {\n\t\tsem->sem_created = TRUE;",
+         new="\t\tif (p_error_get_last_system () == EEXIST) {\n\t\t\tsem->sem_hdl = semget (sem->unix_key, 1, 0660);\n\t\t\tsem->sem_created = TRUE;\n\t\t}\n\t} else {\n\t\tsem->sem_created = TRUE;"),
+    dict(id="sysv-rmid-by-anyone", file="src/psemaphore-sysv.c", expect="C06.5",
+         old="\tif (sem->sem_hdl != P_SEM_INVALID_HDL &&\n\t    sem->sem_created == TRUE &&\n\t    semctl", new="\tif (sem->sem_hdl != P_SEM_INVALID_HDL &&\n\t    semctl"),
     dict(id="create-reopen-without-ocreat", file="src/psemaphore-posix.c", expect="C06.1",
          old="\t\t\t\topen_flags = O_CREAT;", new="\t\t\t\topen_flags = 0;"),
     dict(id="open-mode-fallback-creates", file="src/psemaphore-posix.c", expect="C06.1",
